@@ -56,7 +56,7 @@ TRACE_INV = ["M_Init", "M_Weights", "M_WeightShape", "M_PherOwn", "M_Pher", "M_R
              "M_StoredCost", "M_Own", "M_Final", "End"]
 DECODE_INV = ["M_InMask", "M_Lp", "M_Forced", "M_Sum", "M_Eval", "M_EvalR", "End"]
 CLAUSE = {"initial-pheromone": "C12", "deposit-weight": "C12", "deposit-weight-monotone-in-reward": "C12",
-          "pheromone-only-from-own-ants": "C12", "pheromone-recurrence": "C12", "replicas-keep-their-instance": "C12",
+          "pheromone-only-from-own-ants": "C12", "pheromone-recurrence": "C12", "replicas-keep-their-instance": "C12", "local-search-result-is-used": "C15",
           "ant-reward-is-own-tour-length": "C15", "best-is-max-of-own-history": "C15", "best-so-far-monotone": "C15",
           "stored-tour-has-stored-cost": "C15", "stored-tour-from-own-ant": "C15", "final-is-best": "C15",
           "action-in-mask": "C11", "logprob-of-taken-action": "C11", "forced-step-nonzero": "C11", "sum-of-steps": "C11",
@@ -99,9 +99,10 @@ CONFIGS = {
         dict(name="4n-3ants-3it-Q1/2", n=4, which=(0, 2), tours=(T4LS[:2], T4B[:1]), C=_c(3, 3, (19, 20), q=(1, 2))),
         dict(name="5n-2ants-3it", n=5, which=(0, 1), tours=(T5A, T5B[:1]), C=_c(2, 3, (3, 4))),
         dict(name="4n-2ants-1it-all-permutations", n=4, which=(0, 2), tours=(_perms(4), T4B[:1]), C=_c(2, 1, (19, 20))),
-        dict(name="4n-2ants-2it-localsearch", n=4, which=(0, 2), tours=(T4LS, T4B), C=_c(2, 2, (1, 2), ls=True)),
+        dict(name="4n-2ants-2it-localsearch", n=4, which=(0, 2), tours=(T4LS, T4B[:1]), C=_c(2, 2, (1, 2), ls=True)),
+        dict(name="4n-2ants-1it-localsearch", n=4, which=(0, 2), tours=(T4LS, T4B), C=_c(2, 1, (19, 20), ls=True)),
         dict(name="4n-2ants-1it-nls2", n=4, which=(0, 2), tours=(T4LS, T4B[:1]), C=_c(2, 1, (1, 2), ls=True, npert=2)),
-        dict(name="5n-3ants-2it", n=5, which=(0, 1), tours=(T5A[:3], T5B), C=_c(3, 2, (1, 2))),
+        dict(name="5n-3ants-2it", n=5, which=(0, 1), tours=(T5A[:3], T5B[:1]), C=_c(3, 2, (1, 2))),
     ],
 }
 ENV_A = "AntSystem/tsp(scripted ants)"
@@ -347,8 +348,13 @@ def replay_chunk(cfg, insts, table, leaves, rows, seed, world, sink):
             # ---- the ants of this row walked the scripted tours of ITS instance and were priced on it
             deliv = sr["actions"][r].tolist()
             if deliv != U[t][r].tolist():
-                bad("replicas-keep-their-instance", r, t, "tours handed to _update_results %s, ants of this instance walked %s"
-                    % (deliv, U[t][r].tolist()))
+                if use_ls and S[t][r].tolist() != U[t][r].tolist() and sorted(map(tuple, deliv)) != sorted(map(tuple, U[t][r].tolist())):
+                    bad("local-search-result-is-used", r, t, "tours handed to _update_results %s; sampled %s, local search%s returned %s"
+                        % (deliv, S[t][r].tolist(), " + %d perturbation rounds (strictly better candidates replace)" % npert if npert else "",
+                           U[t][r].tolist()))
+                else:
+                    bad("replicas-keep-their-instance", r, t, "tours handed to _update_results %s, ants of this instance walked %s"
+                        % (deliv, U[t][r].tolist()))
                 break
             own_tours += deliv
             rw = [float(x) * grid for x in sr["reward"][r]]
@@ -824,13 +830,16 @@ def nar_records(tier, seed, viol):
                 lps, acts, rews, _ = state["aco"].get_logp()
                 for t, (lp, a, rw) in enumerate(state["records"]):
                     L = lp.shape[1]
+                    # iterations are padded along the step axis to the longest one: (action 0, log-probability 0)
                     ok = (torch.equal(lps[t][:, :L], lp) and torch.equal(acts[t][:, :L], a) and torch.equal(rews[t], rw)
-                          and bool((lps[t][:, L:] == 0).all()))
+                          and bool((lps[t][:, L:] == 0).all()) and bool((acts[t][:, L:] == 0).all())
+                          and lps.shape[:2] == acts.shape[:2] == (len(state["records"]), lp.shape[0]) and lps.shape[2] == acts.shape[2])
                     if not ok:
                         viol.append({"property": "C11", "env": "AntSystem.get_logp/" + envname, "monitor": "get_logp-returns-recorded-steps",
                                      "inst": {"torch_seed": sd, "iteration": t + 1}, "actions": a.tolist(),
-                                     "detail": "get_logp()[%d] differs from the log-probabilities / actions / rewards recorded in iteration %d"
-                                               % (t, t + 1)})
+                                     "detail": "get_logp()[%d] (log-probabilities %s, actions %s) is not the record of iteration %d (%d steps) "
+                                               "padded with (action 0, log-probability 0)"
+                                               % (t, lps[t].tolist(), acts[t].tolist(), t + 1, L)})
 
             guarded("AntSystem.get_logp", envname, {"torch_seed": sd, "n_ants": K, "n_iterations": 4,
                                                     "episode_lengths": [r[0].shape[1] for r in state.get("records", [])]}, get_logp)
@@ -838,7 +847,12 @@ def nar_records(tier, seed, viol):
 
 
 # ----------------------------------------------------------------------------------------------------------------
-def violations(tier, seed):
+PARTS = ("model", "e2e", "loglik")
+
+
+def violations(tier, seed, parts=PARTS):
+    """parts: "model" = (a) ACO.tla + replay [C15, C12], "e2e" = (b) DeepACOPolicy runs -> ACOTrace.tla [C15, C12],
+    "loglik" = (c) NAR log-likelihoods -> DecodeTrace.tla [C11, C12 (advantage over own ants)]"""
     logging.disable(logging.WARNING)
     import rl4co
 
@@ -858,7 +872,7 @@ def violations(tier, seed):
                          "detail": detail})
 
     # ---- (a) model checking (configurations in parallel JVMs) + replay
-    cfgs = CONFIGS[tier]
+    cfgs = CONFIGS[tier] if "model" in parts else []
     with cf.ThreadPoolExecutor(max_workers=4) as ex:      # 4 JVMs x 1 worker
         checked = list(ex.map(lambda a: model_check(a[0], a[1], tier != "quick"), enumerate(cfgs)))
     world = _world()
@@ -895,7 +909,7 @@ def violations(tier, seed):
 
     # ---- (b) end to end
     t1 = time.time()
-    recs, _ = end_to_end(tier, seed, viol)
+    recs, _ = end_to_end(tier, seed, viol) if "e2e" in parts else ([], [])
     fails, drifts, st, _ = validate_records("ACOTrace", recs, TRACE_INV, "e2e", shards=4, per_shard=400)
     states += st
     seen = {}
@@ -915,7 +929,7 @@ def violations(tier, seed):
 
     # ---- (c) log-likelihoods
     t1 = time.time()
-    drecs, _ = nar_records(tier, seed, viol)
+    drecs, _ = nar_records(tier, seed, viol) if "loglik" in parts else ([], [])
     dfails, _, st, _ = validate_records("DecodeTrace", drecs, DECODE_INV, "aco", shards=4, per_shard=800)
     states += st
     seen = {}
@@ -942,7 +956,7 @@ def violations(tier, seed):
     cov = {"states": states, "transitions": transitions, "replayed": n_beh, "state_comparisons": n_cmp, "real_runs_scripted": n_runs,
            "traces_validated_against_impl": len(recs) + len(drecs), "acotrace_records": len(recs),
            "acotrace_iterations": sum(len(r["it"]) for r in recs), "decodetrace_records": len(drecs), "decodetrace_by_policy": pols,
-           "e2e_runs": len(B_RUNS[tier]) * B_SEEDS[tier], "e2e_crashed_records": sum(1 for r in recs if r["crashed"]),
+           "parts": list(parts), "e2e_runs": len(B_RUNS[tier]) * B_SEEDS[tier] if "e2e" in parts else 0, "e2e_crashed_records": sum(1 for r in recs if r["crashed"]),
            "models": per_cfg, "exhaustive": True, "replay_clause_counts": counts, "tie_deposit_rule": TIE_DEP,
            "wall_s": {"model+replay": round(wall_a, 1), "end_to_end": round(wall_b, 1), "loglik": round(wall_c, 1),
                       "total": round(time.time() - t0, 1)},
